@@ -1,0 +1,22 @@
+//go:build verif
+
+package p2p
+
+import (
+	"context"
+
+	pubsub "github.com/libp2p/go-libp2p-pubsub"
+	"github.com/libp2p/go-libp2p/core/peer"
+)
+
+// This file is only compiled with the `verif` build tag. It lets the external
+// model-checking harness invoke the topic validator directly.
+
+// VerifValidate runs the Subscriber's topic validator on the given message.
+func (s *Subscriber[H]) VerifValidate(
+	ctx context.Context,
+	p peer.ID,
+	msg *pubsub.Message,
+) pubsub.ValidationResult {
+	return s.verifyMessage(ctx, p, msg)
+}
